@@ -461,6 +461,59 @@ func (c *Ctx) untainted(v ssa.Value, taintedKeys map[string]bool) bool {
 	return true
 }
 
+// deepClientSource follows v through calls (receiver and arguments), string
+// operations, phis and extracts to a client-controlled source.
+func (c *Ctx) deepClientSource(v ssa.Value, tk map[string]bool, d int, seen map[ssa.Value]bool) string {
+	if v == nil || d > 10 || seen[v] {
+		return ""
+	}
+	seen[v] = true
+	for _, o := range c.fieldOrigins(v) {
+		if s := c.clientSource(o, tk); s != "" {
+			return s
+		}
+		if o.Kind == "call" && o.V != nil && o.V != v {
+			if s := c.deepClientSource(o.V, tk, d+1, seen); s != "" {
+				return s
+			}
+		}
+	}
+	var ops []ssa.Value
+	switch x := v.(type) {
+	case *ssa.Call:
+		if x.Call.IsInvoke() {
+			ops = append(ops, x.Call.Value)
+		}
+		ops = append(ops, x.Call.Args...)
+	case *ssa.Extract:
+		ops = append(ops, x.Tuple)
+	case *ssa.Phi:
+		ops = append(ops, x.Edges...)
+	case *ssa.BinOp:
+		ops = append(ops, x.X, x.Y)
+	case *ssa.UnOp:
+		ops = append(ops, x.X)
+	case *ssa.FieldAddr:
+		ops = append(ops, x.X)
+	case *ssa.Field:
+		ops = append(ops, x.X)
+	case *ssa.Slice:
+		ops = append(ops, x.X)
+	case *ssa.Convert:
+		ops = append(ops, x.X)
+	case *ssa.ChangeType:
+		ops = append(ops, x.X)
+	case *ssa.MakeInterface:
+		ops = append(ops, x.X)
+	}
+	for _, o := range ops {
+		if s := c.deepClientSource(o, tk, d+1, seen); s != "" {
+			return s
+		}
+	}
+	return ""
+}
+
 func stripMI(v ssa.Value) ssa.Value {
 	for {
 		switch x := v.(type) {
@@ -624,17 +677,42 @@ func C15(c *Ctx) {
 	}
 	r.Extra["redirect_call_sites"] = n
 
+	// (2a) inside the default redirector the options are what the handler set:
+	// the client's parameter reaches the sinks through the guard only, never by
+	// way of ro.RedirectPath, which is followed unexamined
+	for _, fn := range c.P.Funcs {
+		if pkgOf(fn) != "ab/defaults" {
+			continue
+		}
+		for _, b := range fn.Blocks {
+			for _, in := range b.Instrs {
+				st, ok := in.(*ssa.Store)
+				if !ok {
+					continue
+				}
+				fa, ok := st.Addr.(*ssa.FieldAddr)
+				if !ok || fieldName(fa) != "RedirectPath" || !strings.HasSuffix(strings.TrimPrefix(fa.X.Type().String(), "*"), "RedirectOptions") {
+					continue
+				}
+				src := c.deepClientSource(st.Val, tk, 0, map[ssa.Value]bool{})
+				ok2 := src == "" || c.safePrefixed(st.Val, tk, 0)
+				r.Check(ok2, "C15.redirect-path", FuncName(fn), "ro.RedirectPath rewritten", posf(c, st), "not client-controlled", "the redirector overwrites RedirectPath — which it follows without any guard — with a value derived from the "+src+" ("+SafeString(st.Val)+"): the client's target bypasses the guard")
+			}
+		}
+	}
+
 	// (2)+(3) default redirector
 	var verdicts [][]string
 	var fnNames []string
 	for _, fnName := range []string{"(ab/defaults.Redirector).redirectNonAPI", "(ab/defaults.Redirector).redirectAPI"} {
 		fn := c.P.FuncOpt(fnName)
+		kind := ""
 		if fn == nil {
 			// the mode folded into another function of the redirector: found by its sink
 			api := strings.HasSuffix(fnName, "redirectAPI")
-			var cands []*ssa.Function
+			var cands, both []*ssa.Function
 			for _, f := range c.P.Funcs {
-				if pkgOf(f) != "ab/defaults" || !strings.Contains(FuncName(f), "Redirector)") {
+				if pkgOf(f) != "ab/defaults" {
 					continue
 				}
 				hasRedirect := len(CallsTo(f, "net/http.Redirect")) > 0
@@ -651,16 +729,24 @@ func C15(c *Ctx) {
 				if (api && hasLocation && !hasRedirect) || (!api && hasRedirect && !hasLocation) {
 					cands = append(cands, f)
 				}
+				if hasLocation && hasRedirect {
+					both = append(both, f)
+				}
 			}
 			if len(cands) == 1 {
 				fn = cands[0]
+			} else if len(cands) == 0 && len(both) == 1 {
+				// both modes live in one function (their helpers were inlined into the
+				// dispatcher): each is read by its own sink
+				fn = both[0]
+				kind = map[bool]string{true: "json", false: "http"}[api]
 			}
 		}
 		if fn == nil {
 			r.Unknown("C15.guard", fnName, "function", "-", "default redirector mode not found")
 			continue
 		}
-		v := c.redirectorMode(fn, fnName)
+		v := c.redirectorMode(fn, fnName, kind)
 		if v != nil {
 			verdicts = append(verdicts, v)
 			fnNames = append(fnNames, fnName)
@@ -681,36 +767,42 @@ func C15(c *Ctx) {
 
 // redirectorMode analyses one mode of the default redirector; returns the
 // verdict per witness ("blocked", "followed", "undecided").
-func (c *Ctx) redirectorMode(fn *ssa.Function, name string) []string {
+func (c *Ctx) redirectorMode(fn *ssa.Function, name string, kind string) []string {
 	r := c.R
 	// (obligations keep the mode's canonical name when the mode was folded into
 	// another function, so that what is known about the mode stays attached to it)
 	// source
 	var src *ssa.Call
+	var srcs []*ssa.Call
 	for _, call := range CallsTo(fn, "(*net/http.Request).FormValue") {
 		if fieldLoadName(Arg(call, 1)) == "FormValueName" {
 			src, _ = call.(*ssa.Call)
+			srcs = append(srcs, src)
 		}
 	}
 	if src == nil {
 		r.Unknown("C15.guard", name, "FormValue(FormValueName)", "-", "return-target parameter read not found")
 		return nil
 	}
-	// sinks
+	// sinks (of the mode asked for, when one function holds both)
 	type sink struct {
 		in  ssa.Instruction
 		val ssa.Value
 		wh  string
 	}
 	var sinks []sink
-	for _, call := range CallsTo(fn, "net/http.Redirect") {
-		sinks = append(sinks, sink{call.(ssa.Instruction), Arg(call, 2), "http.Redirect"})
+	if kind != "json" {
+		for _, call := range CallsTo(fn, "net/http.Redirect") {
+			sinks = append(sinks, sink{call.(ssa.Instruction), Arg(call, 2), "http.Redirect"})
+		}
 	}
-	for _, b := range fn.Blocks {
-		for _, in := range b.Instrs {
-			if mu, ok := in.(*ssa.MapUpdate); ok {
-				if k, isC := ConstStr(stripMI(mu.Key)); isC && k == "location" {
-					sinks = append(sinks, sink{mu, stripMI(mu.Value), `data["location"]`})
+	if kind != "http" {
+		for _, b := range fn.Blocks {
+			for _, in := range b.Instrs {
+				if mu, ok := in.(*ssa.MapUpdate); ok {
+					if k, isC := ConstStr(stripMI(mu.Key)); isC && k == "location" {
+						sinks = append(sinks, sink{mu, stripMI(mu.Value), `data["location"]`})
+					}
 				}
 			}
 		}
@@ -718,6 +810,33 @@ func (c *Ctx) redirectorMode(fn *ssa.Function, name string) []string {
 	if len(sinks) == 0 {
 		r.Unknown("C15.guard", name, "sink", "-", "no redirect sink found")
 		return nil
+	}
+	// the read that feeds this mode's sink (each inlined copy of a shared
+	// target computation has its own)
+	if len(srcs) > 1 {
+		var feeds func(v ssa.Value, d int, seen map[ssa.Value]bool) *ssa.Call
+		feeds = func(v ssa.Value, d int, seen map[ssa.Value]bool) *ssa.Call {
+			if v == nil || d > 10 || seen[v] {
+				return nil
+			}
+			seen[v] = true
+			for _, sc := range srcs {
+				if v == ssa.Value(sc) {
+					return sc
+				}
+			}
+			if phi, ok := v.(*ssa.Phi); ok {
+				for _, e := range phi.Edges {
+					if sc := feeds(e, d+1, seen); sc != nil {
+						return sc
+					}
+				}
+			}
+			return nil
+		}
+		if sc := feeds(sinks[0].val, 0, map[ssa.Value]bool{}); sc != nil {
+			src = sc
+		}
 	}
 	// also: any other use of the tainted value in a header write
 	verdict := make([]string, len(offsiteWitnesses))
